@@ -1095,11 +1095,18 @@ def check_comptime_arg(
     Also checks that the value matches the provided constant. Returns a substitution
     that solves any existential variables occurring in provided constant.
     """
+    from guppylang_internals.tracing.object import GuppyObject, GuppyStructObject
+
     const: Const
     match arg:
         case ast.Constant(value=v):
             const = ConstValue(ty, v)
-        case PlaceNode(place=ComptimeVariable(ty=ty, static_value=v)):
+        # Arguments passed from a comptime function are only known if they are Python
+        # values. Traced Guppy values (e.g. function inputs or results of Guppy calls
+        # like `nat(3)`) are wires whose value is unknown at comptime
+        case PlaceNode(
+            place=ComptimeVariable(ty=ty, static_value=v)
+        ) if not isinstance(v, GuppyObject | GuppyStructObject):
             const = ConstValue(ty, v)
         case GenericParamValue(param=const_param):
             const = const_param.to_bound().const
